@@ -51,6 +51,8 @@ def run(ctx):
     _r9_record_header_verbatim(ctx)
     _r10_opt_emitted_with_edns(ctx)
     _r11_pointers_only_from_the_name_writer(ctx)
+    _r12_character_strings_as_read(ctx)
+    _r13_edns_fields_from_one_record(ctx)
     # a record taken back out of the message leaves its names in the compression tree: unless the section ends there, later names
     # are compressed against octets that are gone.  The loop shape is C04's.
     ctx.include("C04", rules=("R3", "R2"))
@@ -83,6 +85,56 @@ def _r11_pointers_only_from_the_name_writer(ctx):
                       "a compression pointer is composed from %s: its target must be the offset a suffix-tree node recorded (node.data)" % show(tgt)[:100])
     if ctx.config in ("default", "dns"):
         ctx.floor("R11", "places that compose a compression pointer", n, 2)
+
+
+def _r13_edns_fields_from_one_record(ctx):
+    """R13 the EDNS fields of a decoded message describe one OPT record: `edns_ver` and `edns` (and the size, DO and extended rcode) are
+    computed from the same selected record, so either all of them say "EDNS" or none does. The encoder writes an OPT record when
+    `edns` is present; a message decoded with a version but without `edns` comes back from a round trip without its version."""
+    from .. import dnsflags
+    P = ctx.P
+    d = dnsflags._find_decoder(P)
+    if d is None:
+        if ctx.config in ("default", "dns"):
+            ctx.bad("R13", "anchor:decoder", "", "DNS message decoder not found")
+        return
+    b, bb, idx, st, f = d
+    ctx.saw(b)
+
+    def selectors(t):
+        return {y[3] for y in subterms(t) if y[0] == "call" and isinstance(y[1], str) and y[1].rsplit("::", 1)[-1] in ("find", "position", "rposition", "find_map", "last", "pop", "first")
+                and len(y) > 3}
+    sel = {k: selectors(f[k]) for k in ("edns_ver", "edns", "bufsize", "edns_do") if k in f}
+    base = sel.get("edns")
+    same = base is not None and len(base) >= 1 and all(v == base for v in sel.values())
+    ctx.check(same, "R13", "edns-fields-come-from-one-record", ctx.where(b, st["sp"]),
+              "the record-selecting calls behind the EDNS fields differ (%s): version, options, size and DO must be read from the same OPT record"
+              % {k: sorted(v) for k, v in sel.items()})
+
+
+def _r12_character_strings_as_read(ctx):
+    """R12 a character-string is its octets: `get_string` hands back exactly what `get_bytes(<the length octet>)` returned. The encoder
+    writes a string behind one length octet and asserts that it fits; that holds for every decoded string only while decoding cannot
+    lengthen one (a lossy conversion to text replaces each invalid octet by three)."""
+    P = ctx.P
+    fns = [f for f in P.bodies if f.endswith("parse::PktParser::<'l>::get_string")]
+    if ctx.config in ("default", "dns"):
+        ctx.floor("R12", "character-string reader", len(fns), 1)
+    for f in fns:
+        b = P.bodies[f]
+        ctx.saw(b)
+        T = terms(P, b)
+        rets = [(bb, tm) for bb, tm in b.calls() if tuple(tm["dest"]) == (0,) and "from_residual" not in (callee_name(tm) or "")]
+        stm = [st for bb, idx, st in b.stmts() if tuple(st["p"]) == (0,) and st.get("rv")]
+        good = len(rets) == 1 and not stm and (callee_name(rets[0][1]) or "").endswith("::get_bytes")
+        if good:
+            a = norm(T.call_args(rets[0][0])[1])
+            while a[0] == "cast":
+                a = norm(a[3])
+            good = a[0] == "payload" and norm(a[2])[0] == "call" and str(norm(a[2])[1]).endswith("::get_u8")
+        ctx.check(good, "R12", "character-string-is-the-octets-read", ctx.where(b),
+                  "get_string must return get_bytes(get_u8()? as usize) itself: a decoded string longer than its 255 octets on the wire "
+                  "makes the encoder's length assertion fail on a message the decoder accepted")
 
 
 def _r8_opt_removed(ctx):
